@@ -155,7 +155,7 @@ func c14IssueFromStored(c *Ctx) {
 		if en.role == "endpoint" || fnPkgPath(en.fn) != pkgOpenID || !c.P.CallsNamed(en.fn, ".GetOpenIDConnectSession", 3) {
 			continue
 		}
-		ex := c.Explore(en.fn, ExploreConfig{Inline: func(f *ssaFunction) bool { return f.Parent() != nil || defaultInline(f) && len(f.Blocks) <= 6 }}, "oidc")
+		ex := c.Explore(en.fn, ExploreConfig{Inline: oidcInline(c)}, "oidc")
 		if !c.complete(ex, rule, en.role, en.fn) {
 			continue
 		}
